@@ -89,6 +89,10 @@ func genC40(rt *rapid.T, menu []string, excluded map[string]bool) (c40Case, bool
 		c.Reqs = append(c.Reqs, genC40Req(rt, menu, excluded, &steered))
 	}
 	c.Reqs = append(c.Reqs, c40Req{Kind: "continue"})
+	c.Early = rapid.IntRange(0, 2).Draw(rt, "early") == 0
+	if c.Early {
+		c.EarlyDelayUS = rapid.SampledFrom([]int{0, 500, 2000, 5000, 10000, 20000}).Draw(rt, "earlyDelay")
+	}
 	return c, steered
 }
 
@@ -406,6 +410,9 @@ func (r *c40Runner) run(f kit.Failer, c c40Case, fresh bool) {
 	}
 	if mid < len(v.Res.Served) {
 		cl = append(cl, "sim-finished-before-last-request")
+	}
+	if c.Early {
+		cl = append(cl, "clients-may-meet-the-start-of-Run")
 	}
 	s.AddExtra("requests_served_midrun", mid)
 	s.Note(c, mid >= 20, cl...)
@@ -749,6 +756,10 @@ func genC40Conc(rt *rapid.T, excluded map[string]bool) (c40Case, bool) {
 		}
 		c.Clients = append(c.Clients, reqs)
 	}
+	c.Early = rapid.IntRange(0, 2).Draw(rt, "early") == 0
+	if c.Early {
+		c.EarlyDelayUS = rapid.SampledFrom([]int{0, 500, 2000, 5000, 10000, 20000}).Draw(rt, "earlyDelay")
+	}
 	return c, steered
 }
 
@@ -1014,6 +1025,9 @@ func TestC40Overlap(t *testing.T) {
 		s.AddExtra("inspections_in_flight_with_pending_pause", st.inspectOverlapPending)
 		s.AddExtra("inspections_while_paused_by_other_client", st.inspectPausedByOther)
 		s.AddExtra("slow_spans", st.slowSpans)
+		if c.Early {
+			cl = append(cl, "clients-may-meet-the-start-of-Run")
+		}
 		s.Note(c, st.clientsMidRun >= 2 && st.pauseMidSlow > 0, cl...)
 	}
 
